@@ -250,13 +250,7 @@ def rule_units(ctx, rule="R3"):
 
     # the unit table is found by what it does, not by its name: the function of the parser crate that yields an f32 and
     # decides on the literal's suffix by comparing it with string constants
-    cands = []
-    for b in F.find(crate=PARSER_CRATE):
-        if b["def_kind"] == "Closure" or "f32" not in (b.get("sig_output") or ""):
-            continue
-        if not any(c.get("k") == "const" and c.get("str") in ("ms", "s") for c in _consts_of(b)):
-            continue
-        cands.append(b)
+    cands = _unit_candidates(F)
     if len(cands) != 1:
         ctx.lost(rule, "unit-table", "expected exactly one f32-yielding function of %s that compares a suffix with \"s\"/\"ms\"; "
                  "found %s" % (PARSER_CRATE, [b["path"] for b in cands]))
@@ -321,13 +315,21 @@ def rule_units(ctx, rule="R3"):
 NUMERIC_TYS = ("f32", "f64", "u8", "u16", "u32", "u64", "usize", "i8", "i16", "i32", "i64", "isize")
 
 
-def _unit_table(F):
+def _unit_candidates(F):
+    """the unit table is found by what it does, not by its name: the function of the parser crate that yields an f32 and
+    decides on the literal's suffix by comparing it with the string constants "s" / "ms" (match arms or `==`)"""
     cands = []
     for b in F.find(crate=PARSER_CRATE):
         if b["def_kind"] == "Closure" or "f32" not in (b.get("sig_output") or ""):
             continue
-        if any(c.get("k") == "const" and c.get("str") in ("ms", "s") for c in _consts_of(b)):
+        if any(c.get("k") == "const" and c.get("str") in ("ms", "s") for c in _consts_of(b)) or \
+                {"s", "ms"} <= str_consts_compared(F, b):
             cands.append(b)
+    return cands
+
+
+def _unit_table(F):
+    cands = _unit_candidates(F)
     return cands[0] if len(cands) == 1 else None
 
 
@@ -355,6 +357,9 @@ def rule_emitted_numbers(ctx, rule="R5"):
                 continue
             if t[0] == "agg" and t[3] == "Ok" and len(t[4]) == 1:
                 t = t[4][0][1]
+                continue
+            if t[0] == "field" and t[2] == "0" and t[1][0] == "variant" and t[1][2] == "Ok":
+                t = t[1][1]         # the Ok payload of a Result-yielding call (`x.map(..).transpose()?`)
                 continue
             return t
 
@@ -459,7 +464,7 @@ def rule_emitted_numbers(ctx, rule="R5"):
                     emitted.append(("%s#%d" % (where, ordinal[where]), v[1] if v[0] == "&" else v))
             if as_helper and q.outcome == "return":
                 r = payload(q.ret)
-                if not (r[0] == "call" and r[1].endswith("from_residual")):
+                if not (r[0] == "call" and r[1].endswith("from_residual")) and not (r[0] == "agg" and r[3] == "Err"):
                     emitted.append(("return of " + b["path"], r))
             for (site, v) in emitted:
                 v = payload(v)
@@ -481,9 +486,12 @@ def rule_emitted_numbers(ctx, rule="R5"):
                 seen_forms[form] = seen_forms.get(form, 0) + 1
                 groups.setdefault((b["path"], site, g), set()).add(form if form in ("zero", "one") else form + ":" + show(v))
                 lits = literals_of(v)
-                dep = [show(t) for (t, vv, s_) in q.conds if any(pse.contains(t, ("field", ("variant", ("call",) + l[1:3], "Continue"), "0"))
-                                                               or (pse.contains(t, l) and not (t[0] == "discr" and t[1][0] == "call" and t[1][1].endswith("Try>::branch")))
-                                                               for l in lits)]
+                # the literal's VALUE is the payload of the reading call (`(branch(read) as Continue).0`, `(read as Ok).0`);
+                # whether the read succeeded (the discriminant of the call's result) is not a property of its size
+                def value_terms(l):
+                    br = [x for x in pse.subterms(v) if x[0] == "call" and x[1].endswith("Try>::branch") and x[2] and x[2][0] == l]
+                    return [("field", ("variant", l, "Ok"), "0")] + [("field", ("variant", x, "Continue"), "0") for x in br]
+                dep = [show(t) for (t, vv, s_) in q.conds if any(pse.contains(t, vt) for l in lits for vt in value_terms(l))]
                 ctx.ob(rule, "%s/no-branch-on-literal[%s]" % (b["path"], form), not dep,
                        "the expansion must not depend on the size of a literal other than through the emitted number: %s" % dep,
                        b["span"], trace_of(q), what="branches-on-literal-value")
@@ -491,7 +499,8 @@ def rule_emitted_numbers(ctx, rule="R5"):
         ctx.ob(rule, "%s/one-form-per-alternative[%s]" % (bp, ",".join(sorted("%s=%s" % x for x in g))[:120]), len(forms) == 1,
                "one grammar alternative must always produce the same form of number; it produces %s" % sorted(forms),
                what="alternative-not-uniform")
-    for form, floor in (("zero", 1), ("one", 1), ("percent", 1), ("seconds", 2), ("literal", 1)):
+    # (a shared helper may serve both the duration and the delay: one site of the 'seconds' form is enough)
+    for form, floor in (("zero", 1), ("one", 1), ("percent", 1), ("seconds", 1), ("literal", 1)):
         ctx.floor(rule, "emitted numbers of form '%s'" % form, seen_forms.get(form, 0), floor)
     ctx.extra["emitted_number_sites"] = n_sites
 
